@@ -87,21 +87,15 @@ def _(eng, ci, a):
 
 def record_violation(eng, check_id, cond_fail, kind='check', extra=None):
     """cond_fail: z3 Bool (or True) under which the check fails; solver has just answered sat for pc ∧ cond_fail"""
-    eng.solver.push()
-    try:
-        if cond_fail is not True:
-            eng.solver.add(cond_fail)
-        if not eng.check_sat(None, 'q_assert'):
-            return
-        m = eng.solver.model()
-        rec = {'type': 'violation', 'harness': eng.cur_harness, 'check': check_id, 'kind': kind,
-               'inputs': eng.dump_inputs(m), 'trace': eng.dump_trace(m) + [['chk', check_id, 0]],
-               'decisions': eng.decisions[-50:]}
-        if extra:
-            rec.update(extra)
-        eng.emit(rec)
-    finally:
-        eng.solver.pop()
+    if not eng.check_sat(None if cond_fail is True else cond_fail, 'q_assert'):
+        return
+    m = eng.model()
+    rec = {'type': 'violation', 'harness': eng.cur_harness, 'check': check_id, 'kind': kind,
+           'inputs': eng.dump_inputs(m), 'trace': eng.dump_trace(m) + [['chk', check_id, 0]],
+           'decisions': eng.decisions[-50:]}
+    if extra:
+        rec.update(extra)
+    eng.emit(rec)
 
 
 @rt('check')
@@ -121,7 +115,11 @@ def _(eng, ci, a):
         eng.events.append(('chk', cid, 1))
         return UNIT
     bad = z3.Not(okv)
-    if eng.check_sat(bad, 'q_assert'):
+    try:
+        failing = eng.check_sat(bad, 'q_assert')
+    except Inconclusive as u:
+        raise Inconclusive('%s [assertion query of check %s]' % (u, cid))
+    if failing:
         record_violation(eng, cid, bad)
         if not eng.check_sat(okv):
             eng.events.append(('chk', cid, 0))
@@ -257,20 +255,21 @@ Engine.dump_inputs = _dump_inputs
 Engine.dump_trace = _dump_trace
 
 
-def explore_harness(eng, fn, name):
-    """runs in a process of its own: depth-first exploration of the harness' path tree.  Every path is
+def explore_task(eng, fn, name, prefix, donate=None):
+    """depth-first exploration of the subtree of the harness' path tree below `prefix`.  Every path is
     executed from the start of the harness; the decisions of its prefix are replayed without solver queries."""
     eng.cur_harness = name
-    eng.is_root = False
-    eng.pending = [[]]
+    eng.pending = [prefix]
     npaths = 0
     nunknown = 0
     try:
         while eng.pending:
-            prefix = eng.pending.pop()
-            eng.reset_path(prefix)
+            pre = eng.pending.pop()
+            eng.reset_path(pre)
             stop = run_one_path(eng, fn, name)
             npaths += 1
+            if donate is not None:
+                donate(eng.pending)
             if stop:
                 break
             nunknown += eng.stats.get('unknown', 0)
@@ -284,7 +283,8 @@ def explore_harness(eng, fn, name):
                 eng.emit({'type': 'error', 'detail': 'wall-clock budget exhausted (%d paths done, %d pending)' % (npaths, len(eng.pending))})
                 break
     finally:
-        eng.finish_process()
+        eng.pending = []
+        eng.close_out()
 
 
 def run_one_path(eng, fn, name):
@@ -319,7 +319,13 @@ def run_one_path(eng, fn, name):
         if status in ('ok', 'check-failed') or status == 'panic':
             try:
                 if eng.check_sat(None, 'q_assert'):
-                    m = eng.solver.model()
+                    m = eng.model()
+                    badc = [c for c in eng.pc if z3.is_false(m.eval(c, model_completion=True))]
+                    if badc:
+                        rec['status'] = 'internal-error'
+                        rec['detail'] = 'solver model violates %d of %d path constraints, e.g. %s [model from %s solver; %d assertions in solver; model size %d; prefix %r; taken %r]' % (
+                            len(badc), len(eng.pc), str(badc[0])[:300], 'fallback' if eng.model_solver is not eng.solver else 'incremental',
+                            len(eng.solver.assertions()), len(m), eng.prefix, eng.taken)
                     rec['inputs'] = eng.dump_inputs(m)
                     rec['trace'] = eng.dump_trace(m)
             except Inconclusive as u:
